@@ -282,3 +282,69 @@ func zzH_c02_counter_bytes() {
 	vAssert("counter-big-endian", len(b) == 4 && b[0] == byte(v>>24) && b[1] == byte(v>>16) && b[2] == byte(v>>8) && b[3] == byte(v))
 	vReach("end")
 }
+
+// H02-tamper: a ciphertext produced by Encrypt and then altered in one byte of C3 or of C2, or
+// presented to another private key, is rejected - unless the altered data happens to hash to
+// the same C3 (a collision of the hash, which is an arbitrary function here): Decrypt accepts
+// exactly when the C3 it recomputes from the decrypted message equals all 32 bytes it received.
+//
+//verif:property C02
+//verif:expect-reach end rejected
+//verif:bound abstract group of order 257; plaintext of 2 symbolic bytes; both component orders; one byte of C3 (each of the 32 positions, symbolic) or of C2 changed by an arbitrary non-zero difference, or the key replaced by another one of the group; SM3 and the KDF arbitrary functions
+//verif:outside changes to C1 (zzH_c02_offcurve_rejected and the group law); the real hash
+//verif:stub github.com/tjfoc/gmsm/sm3.Sm3Sum zzStubSm3Sum02
+//verif:stub github.com/tjfoc/gmsm/sm2.kdf zzStubKdf02
+//verif:unwind 200
+func zzH_c02_tamper() {
+	const L = 2
+	mode := vChoice("mode", 2)
+	m := vBytes("m", L, L)
+	g := zzNewGroup(257)
+	priv, d := zzKey(g, "d")
+	zzKdfEncrypting = true
+	ct, err := Encrypt(&priv.PublicKey, m, &zzRand{max: 2}, mode)
+	zzKdfEncrypting = false
+	if err != nil || len(ct) != 97+L {
+		return
+	}
+	// layout: 04 || x1 || y1 || (C3 || C2  or  C2 || C3)
+	c3off, c2off := 65, 97
+	if mode == C1C2C3 {
+		c2off, c3off = 65, 65+L
+	}
+	what := vChoice("alter", 3)
+	delta := vU8("delta")
+	vAssume(delta != 0)
+	key := priv
+	switch what {
+	case 0:
+		ct[c3off+vInt("pos32", 0, 31)] ^= delta
+	case 1:
+		ct[c2off+vInt("pos2", 0, L-1)] ^= delta
+	default:
+		other, d2 := zzKey(g, "d2")
+		vAssume(d2 != d)
+		key = other
+	}
+	// what an honest Decrypt recomputes
+	x1 := new(big.Int).SetBytes(ct[1:33])
+	y1 := new(big.Int).SetBytes(ct[33:65])
+	x2, y2 := g.ScalarMult(x1, y1, key.D.Bytes())
+	x2b, y2b := zzPad32(x2.Bytes()), zzPad32(y2.Bytes())
+	t, ok := zzStubKdf02(L, x2b, y2b)
+	mm := make([]byte, L)
+	for i := range mm {
+		mm[i] = ct[c2off+i] ^ t[i]
+	}
+	want := zzStubSm3Sum02(append(append(append([]byte{}, x2b...), mm...), y2b...))
+	sameHash := ok && bytes.Equal(want, ct[c3off:c3off+32])
+	pt, derr := Decrypt(key, ct, mode)
+	if derr != nil {
+		vReach("rejected")
+	}
+	vAssert("altered-ciphertext-accepted-only-on-hash-collision", (derr == nil) == sameHash)
+	if derr == nil {
+		vAssert("accepted-plaintext-is-the-hashed-one", bytes.Equal(pt, mm))
+	}
+	vReach("end")
+}
